@@ -20,7 +20,7 @@ GroupRoles == {"admin", "risk_admin", "emode_admin", "curve_admin", "limit_admin
 Keys == {AuthRoles[r] : r \in GroupRoles} \cup {"stranger", "none"}
 Probers == Keys \ {"none"}
 \* single-instruction instructions of the table gated by a group role
-GatedOps == {op \in AuthOpNames : AuthOps[op].nix = 1 /\ AuthOps[op].role \in GroupRoles}
+GatedOps == {op \in AuthOpNames : AuthOps[op].nix = 1 /\ AuthOps[op].role \in GroupRoles /\ AuthOps[op].grp = "G1"}
 
 VARIABLES roles, touched, depth, sid
 vars == <<roles, touched, depth, sid>>
